@@ -30,6 +30,12 @@ CHECKS["C03"] = dict(
   text="Every write/format on generated layouts is followed by a diff of the complete physical memory (one-way lock/OTP semantics make damage visible) against the independently computed NDEF area, and every executed write command must address a unit intersecting it. Held on everything explored.",
   note=TRUST + "Allowed sets for format() on Topaz/Type 3 come from the docstrings. FeliCa Lite/NTAG personalities not simulated in this check.")
 
+CHECKS["C08"] = dict(
+  category="exploration",
+  technique="property-based testing (Hypothesis): mutated/random memory images on memory-backed tag simulators and scripted responders with generated activation-response variants; safety oracle (no exception, command budget, length<=capacity<=declared area, octets from the data area)",
+  text="Arbitrary tag memory (valid layouts mutated at CC/TLV/attribute/NLEN level, random images, less memory than declared) and arbitrary well-framed answers (then silence or endless repetition) are activated and read through nfc.tag.activate/tag.ndef/has_changed; any exception, a command count beyond a budget derived from the declared structure, length > capacity or capacity > declared area is a violation.",
+  note=TRUST + "Budgets and 'well-framed' are defined in the evidence assumptions. Known finding C08-wtx-forever (unbounded consecutive S(WTX)) is excluded by signature.")
+
 PENDING_REASON = "not claimed yet: its generated-input check (DESIGN.md section 3) is still under construction in this session; nothing is asserted about it"
 
 def main():
